@@ -11,7 +11,6 @@ import (
 	"fmt"
 	"os"
 	"runtime"
-	"sort"
 	"strconv"
 	"strings"
 	"time"
@@ -31,191 +30,6 @@ func buildScenarios(c *vkit.Ctx) []e2e.Scenario {
 		out = append(out, e2e.GenScenario(r, fam, i, e2e.Opt{}))
 	}
 	return out
-}
-
-type finding struct{ class, what string }
-
-// Judge decides C01 on one observation.
-func Judge(obs *e2e.Obs) (fs []finding, info map[string]int) {
-	info = map[string]int{}
-	sc := obs.Scenario
-	add := func(class, what string) { fs = append(fs, finding{class, what}) }
-	sent := map[string]e2e.Rec{}
-	for _, r := range obs.Sent {
-		sent[r.Stamp()] = r
-	}
-	// connections on which the agent read everything (clean EOF after our half-close)
-	clean := map[int]bool{}
-	open := map[int]bool{}
-	for gi, g := range sc.Gens {
-		for _, cs := range g.Conns {
-			if cs.LeaveOpen {
-				open[cs.ID] = true
-			} else if gi < len(obs.Gens) && obs.Gens[gi].ClientEOF[cs.ID] {
-				clean[cs.ID] = true
-			}
-		}
-	}
-	last := obs.Gens[len(obs.Gens)-1]
-	dropped := 0.0
-	for _, g := range obs.Gens {
-		dropped += vkit.Sum(g.Metrics, "buffer_dropped_chunks_total", nil)
-	}
-	info["dropped_chunks"] = int(dropped)
-	// content of everything delivered anywhere
-	check := func(d e2e.Delivered) {
-		if d.Stamp == "" {
-			// the partial last line of a connection still open at the stop may end before its stamp
-			// (the cut can fall anywhere, also inside the header, so the event cannot be attributed to a connection)
-			if len(open) > 0 {
-				info["partial_lines_from_open_connections"]++
-				return
-			}
-			add("phantom:no-stamp", fmt.Sprintf("%s/%s delivered an event without a stamp: %v", d.Output, d.Where, d.Fields))
-			return
-		}
-		r, ok := sent[d.Stamp]
-		if !ok {
-			add("phantom", fmt.Sprintf("%s/%s delivered record %s that no client completely sent", d.Output, d.Where, d.Stamp))
-			return
-		}
-		wf, we, wt, deliverable := r.Expected()
-		if !deliverable {
-			add("filtered-delivered", fmt.Sprintf("%s/%s delivered record %s (%s) which the configured filter drops", d.Output, d.Where, d.Stamp, r.Kind))
-			return
-		}
-		diff := []string{}
-		for k, v := range wf {
-			if d.Fields[k] != v {
-				if k == "log" && open[r.Conn] {
-					// a connection still open at the stop: the reader legitimately flushes what it has, i.e. the record may be a
-					// proper prefix of the sent line, or the last complete line with the partial next line attached as a
-					// continuation (which also marks it as multi-line, so it is not unescaped)
-					got := d.Fields[k]
-					if strings.HasPrefix(v, got) {
-						continue
-					}
-					if i := strings.Index(got, "\n<"); i >= 0 {
-						head := got[:i]
-						if head == v || (r.Kind == "esc" && head == strings.NewReplacer("\n", "\\n", "\t", "\\t").Replace(v)) {
-							continue
-						}
-					}
-				}
-				diff = append(diff, fmt.Sprintf("%s: got %q want %q", k, cut(d.Fields[k]), cut(v)))
-			}
-		}
-		for k := range d.Fields {
-			if _, ok := wf[k]; !ok {
-				diff = append(diff, fmt.Sprintf("unexpected field %s=%q", k, cut(d.Fields[k])))
-			}
-		}
-		for k, v := range we {
-			if d.Env[k] != v {
-				diff = append(diff, fmt.Sprintf("environment.%s: got %q want %q", k, d.Env[k], v))
-			}
-		}
-		if len(d.Env) != len(we) {
-			diff = append(diff, fmt.Sprintf("environment has %d fields, want %d", len(d.Env), len(we)))
-		}
-		if !wt.IsZero() && !d.Time.Equal(wt) {
-			diff = append(diff, fmt.Sprintf("time: got %s want %s", d.Time.UTC().Format(time.RFC3339Nano), wt.UTC().Format(time.RFC3339Nano)))
-		}
-		if want := "t." + r.App + "." + wf["level"]; d.Tag != want {
-			diff = append(diff, fmt.Sprintf("tag: got %q want %q", d.Tag, want))
-		}
-		if len(diff) > 0 {
-			sort.Strings(diff)
-			add("altered:"+strings.SplitN(diff[0], ":", 2)[0], fmt.Sprintf("%s/%s record %s (%s) altered: %s", d.Output, d.Where, d.Stamp, r.Kind, strings.Join(diff, "; ")))
-		}
-	}
-	for _, d := range obs.Up {
-		check(d)
-	}
-	for _, g := range obs.Gens {
-		for _, d := range g.Disk {
-			check(d)
-		}
-		for _, b := range g.DiskBad {
-			add("queue-file-undecodable", "queue file does not decode as the chunk it is named after: "+b)
-		}
-	}
-	// at-least-once, per output
-	for o := 1; o <= sc.Outputs; o++ {
-		name := fmt.Sprintf("out%d", o)
-		have := map[string]string{}
-		for _, d := range obs.Up {
-			if d.Output == name && d.Acked {
-				have[d.Stamp] = "acked"
-			}
-		}
-		for _, d := range last.Disk {
-			if d.Output == name && have[d.Stamp] == "" {
-				have[d.Stamp] = "disk"
-			}
-		}
-		var missing []string
-		nExp := 0
-		for st, r := range sent {
-			if _, _, _, ok := r.Expected(); !ok || !clean[r.Conn] {
-				continue
-			}
-			nExp++
-			switch have[st] {
-			case "acked":
-				info["acked"]++
-			case "disk":
-				info["on_disk"]++
-			default:
-				missing = append(missing, st)
-			}
-		}
-		info["expected"] += nExp
-		if len(missing) > 0 {
-			sort.Strings(missing)
-			ex := missing
-			if len(ex) > 8 {
-				ex = ex[:8]
-			}
-			if sc.Family == "overflow" && dropped > 0 {
-				info["lost_in_counted_overflow"] += len(missing)
-			} else {
-				add("lost", fmt.Sprintf("%s: %d of %d expected records are neither in an acknowledged chunk nor in the queue directory after the last stop (dropped_chunks_total=%d), e.g. %v",
-					name, len(missing), nExp, int(dropped), ex))
-			}
-		}
-	}
-	// bounded progress after the faults stop
-	for gi, g := range sc.Gens {
-		if g.WaitAcked && gi < len(obs.Gens) && !obs.Gens[gi].WaitOK {
-			add("not-acked-in-bound", fmt.Sprintf("gen %d: upstream healthy and fault script exhausted, but not every expected record was acknowledged within %s", gi, 4*obs.Bound+3*time.Second))
-		}
-	}
-	retrans := 0
-	seen := map[string]int{}
-	for _, ch := range obs.Chunks {
-		seen[ch.Output+"/"+ch.ChunkID]++
-		if seen[ch.Output+"/"+ch.ChunkID] == 2 {
-			retrans++
-		}
-	}
-	info["retransmitted_chunks"] = retrans
-	info["chunks"] = len(obs.Chunks)
-	recovered := 0
-	for gi := 1; gi < len(obs.Gens); gi++ {
-		if len(obs.Gens[gi-1].DiskFiles) > 0 {
-			recovered++
-		}
-	}
-	info["generations_with_recovery"] = recovered
-	return fs, info
-}
-
-func cut(s string) string {
-	if len(s) > 60 {
-		return s[:60] + "..."
-	}
-	return s
 }
 
 func childMain(c *vkit.Ctx) {
@@ -246,7 +60,7 @@ func childMain(c *vkit.Ctx) {
 	if err != nil {
 		return
 	}
-	fs, info := Judge(obs)
+	fs, info := e2e.JudgeAtLeastOnce(obs)
 	for k, v := range info {
 		c.Event(k, v)
 	}
@@ -268,7 +82,7 @@ func childMain(c *vkit.Ctx) {
 			"chunks_seen": len(obs.Chunks), "info": info, "upstream_events": obs.Gens[0].UpEvents})
 	}
 	for _, f := range fs {
-		c.Violation(f.class+":"+sc.Family, f.what, map[string]any{"scenario": sc, "info": info, "upstream_events": obs.Gens[len(obs.Gens)-1].UpEvents})
+		c.Violation(f.Class+":"+sc.Family, f.What, map[string]any{"scenario": sc, "info": info, "upstream_events": obs.Gens[len(obs.Gens)-1].UpEvents})
 	}
 }
 
